@@ -410,4 +410,26 @@ theorem RsdInv.env {p : MRsd} {h' : Heap} (hi : RsdInv p) (he : Env p.h h') :
 theorem RsdInv.init (src : Src) (h : Heap) (hf : h.faults = []) : RsdInv ⟨Slice.nil, 0, src, h⟩ :=
   ⟨hf, Nat.le_refl _, Nat.le_refl _, fun hc => by simp [Slice.nil] at hc⟩
 
+/-- histories of one ReaderSkipDecoder: successful `Next` calls, Release + re-get of the same pooled
+    decoder (the buffer is retained, nothing is freed), environment steps.  (A failing `Next` ends the
+    modelled history: the error outcome carries no state.) -/
+inductive RsdStep : MRsd → MRsd → Prop
+  | next (p : MRsd) (t : UInt8) (s : Slice) (p' : MRsd) (hrun : memReaderDecNext p t = .ok (s, p')) : RsdStep p p'
+  | release (p : MRsd) : RsdStep p p.release
+  | env (p : MRsd) (h' : Heap) (he : Env p.h h') : RsdStep p { p with h := h' }
+
+inductive RsdSteps : MRsd → MRsd → Prop
+  | refl (p : MRsd) : RsdSteps p p
+  | cons {a b c : MRsd} (s : RsdStep a b) (t : RsdSteps b c) : RsdSteps a c
+
+theorem RsdStep.inv : ∀ {a b : MRsd}, RsdStep a b → RsdInv a → RsdInv b
+  | _, _, .next p t s p' hrun, hi => (memReaderDecNext_ok p t s p' hrun hi).1
+  | _, _, .release _, hi => ⟨hi.nofault, Nat.zero_le _, hi.len_le, hi.buf_ok⟩
+  | _, _, .env _ _ he, hi => (hi.env he).1
+
+theorem RsdSteps.inv {a b : MRsd} (t : RsdSteps a b) (hi : RsdInv a) : RsdInv b := by
+  induction t with
+  | refl p => exact hi
+  | cons s _ ih => exact ih (s.inv hi)
+
 end Verif.Mem
